@@ -28,6 +28,31 @@ struct Cx<'a> {
 }
 
 /// namespaces used by names in the subtree, and those used where no declaration inside the subtree binds them
+/// namespaces used by a name at which no NON-EMPTY prefix declared inside the subtree binds
+/// them (only such a namespace can possibly be "unresolved"; under any reading a namespace
+/// whose every use has a prefixed binding inside the subtree is resolved)
+fn not_prefixed_everywhere(n: &ANode, inner: &Scope, out: &mut BTreeSet<String>) {
+    if let ANode::Element(e) = n {
+        let sc = scope::push(inner, &e.decls);
+        let mut names = vec![&e.name];
+        for (q, _) in &e.attrs {
+            names.push(q);
+        }
+        for q in names {
+            if !q.ns.is_empty() && !sc.iter().any(|(p, u)| !p.is_empty() && *u == q.ns) {
+                out.insert(q.ns.clone());
+            }
+        }
+        for c in &e.children {
+            not_prefixed_everywhere(c, &sc, out);
+        }
+    } else {
+        for c in n.children() {
+            not_prefixed_everywhere(c, inner, out);
+        }
+    }
+}
+
 fn used(n: &ANode, inner: &Scope, all: &mut BTreeSet<String>, unbound: &mut BTreeSet<String>) {
     if let ANode::Element(e) = n {
         let sc = {
@@ -168,9 +193,14 @@ fn check_node(cx: &mut Cx, node: Node, model: &ANode, sc: &Scope, parent_scope: 
         let mut all = BTreeSet::new();
         let mut unbound = BTreeSet::new();
         used(model, &Scope::new(), &mut all, &mut unbound);
+        let mut loose = BTreeSet::new();
+        not_prefixed_everywhere(model, &Scope::new(), &mut loose);
         for u in &unres {
             if !all.contains(u) {
                 return Err(format!("unresolved_namespaces reports {:?}, which no name in the subtree uses {}", u, here()));
+            }
+            if !u.is_empty() && u != XML_NS && !loose.contains(u) {
+                return Err(format!("unresolved_namespaces reports {:?} although every name that uses it has a prefixed declaration for it inside the subtree {}", u, here()));
             }
         }
         for u in &unbound {
